@@ -479,6 +479,12 @@ class AST2SCFGTransformer:
 
     def handle_function_def(self, node: ast.FunctionDef) -> None:
         """Handle a function definition."""
+        # Only the function that is being transformed is supported, nested
+        # function definitions can not be represented in the CFG.
+        if node is not self.tree[0]:
+            raise NotImplementedError(
+                "Nested function definitions are not implemented"
+            )
         # Insert implicit return None, if the function isn't terminated. May
         # end up being an unreachable block if all other paths through the
         # program already call return.
